@@ -5,9 +5,9 @@ package harness
 
 import (
 	"context"
-	"fmt"
 	"encoding/json"
 	"errors"
+	"fmt"
 	"io"
 	"net/http"
 	"net/http/httptest"
@@ -339,4 +339,23 @@ func TestF4RetainedInvalidNotification(t *testing.T) {
 	time.Sleep(20 * time.Millisecond)
 	cli.Close()
 	s.Wait()
+}
+
+// F17: an error value whose Data is not JSON makes the whole reply batch unencodable; deliver drops
+// it, so neither that call nor the other calls of the same inbound message are ever answered.
+func TestF17UnencodableErrorData(t *testing.T) {
+	cli, sch := rawPair()
+	mux := handler.Map{
+		"m": func(ctx context.Context, req *jrpc2.Request) (any, error) { return "ok", nil },
+		"bad": func(ctx context.Context, req *jrpc2.Request) (any, error) {
+			return nil, &jrpc2.Error{Code: 7, Message: "failed", Data: json.RawMessage(`{"a":`)}
+		},
+	}
+	s := jrpc2.NewServer(mux, nil).Start(sch)
+	defer func() { cli.Close(); s.Wait() }()
+	cli.Send([]byte(`[{"jsonrpc":"2.0","id":1,"method":"bad"},{"jsonrpc":"2.0","id":2,"method":"m"}]`))
+	r := sendRecv(t, cli, `{"jsonrpc":"2.0","id":3,"method":"m"}`)
+	if !strings.Contains(r, `"id":1`) || !strings.Contains(r, `"id":2`) || !strings.Contains(r, `"code":7`) {
+		t.Errorf("the batch [bad, m] was not answered; next message on the wire: %s", r)
+	}
 }
